@@ -53,9 +53,13 @@
 //! partitions LEFT / LEFT SEMI / LEFT ANTI / LEFT MARK joins emit "unmatched" left rows per partition →
 //! wrong result under the memory limit (regression case
 //! /verif/regressions/C18/c18/nlj-fallback-multi-partition-left-emission.json: `t RIGHT JOIN u`, expected 1832
-//! rows, got 1871; fix /verif/fixes/C18-nlj-fallback-multi-partition-left-emission.diff). Until the fixes are
-//! committed the class NestedLoop × (target_partitions ≥ 2 or MemTable partitions ≥ 2) is excluded through
-//! `known_signature`.
+//! rows, got 1871; fix /verif/fixes/C18-nlj-fallback-multi-partition-left-emission.diff); (C) found by this
+//! check's thorough tier: with a single partition everywhere and batch_size 32 / 64 the fallback of an NLJ
+//! `join_type=Right` loses every unmatched right row (regression case
+//! /verif/regressions/C18/c18/nlj-fallback-right-unmatched-lost.json: `t LEFT JOIN u`, 128 KiB pool, expected
+//! 2681 rows, got 1317; correct with batch_size ≥ 1024; root cause not isolated, stop-gap
+//! /verif/fixes/C18-nlj-fallback-right-unmatched-lost.stopgap.diff). Until the fixes are committed every
+//! nested-loop-join case is excluded through `known_signature` (class signature `nlj-oom-fallback`).
 use crate::data::{DataSpec, Which, multiset_diff, sequence_diff, sub_multiset};
 use crate::env::*;
 use crate::query::*;
@@ -287,7 +291,7 @@ impl Property for C18 {
     }
     fn known_signature(&self, case: &Case) -> Option<String> {
         let nlj = case.query.shape.join_algo() == Some(JoinAlgo::NestedLoop);
-        if nlj && (case.cfg.target_partitions >= 2 || case.cfg.mem_partitions >= 2) {
+        if nlj {
             return Some(crate::c20::NLJ_FALLBACK_SIGNATURE.to_string());
         }
         None
